@@ -31,7 +31,7 @@ PATHS = ['secretdirAlpha/payrollQ3.xlsx', 'secretdirAlpha/nested-Omega/diary.txt
 def budget(tier):
     if tier == 'quick':
         return {'shards': 16, 'examples': 10, 'steps': 14, 'wall': 240}
-    return {'shards': 16, 'examples': 700, 'steps': 24, 'wall': 2400}
+    return {'shards': 16, 'examples': 200, 'steps': 24, 'wall': 2400}
 
 
 @st.composite
